@@ -1,6 +1,7 @@
 SPECIFICATION Spec
 CONSTANTS MaxLocals = 3
  MaxAlign = 16
+ InitLocals = 3
  Variant = "ok"
 INVARIANTS Disjoint InFrame Aligned Array16 InitCovers InitExact
 CHECK_DEADLOCK FALSE
